@@ -587,6 +587,23 @@ def run_file(res, judge, tracker, fp, name, data, path, rng, tier, full_lines=Tr
         attempt("directory-path", None, "str", lambda: os.path.dirname(str(path)), flag)
         attempt("directory-path", None, "path", lambda: Path(os.path.dirname(str(path))), flag)
 
+    # ---------------- the application asked for strict READS (rv.errors.RAISE_RANGE_ERRORS_ON_READ = True, set on the errors
+    # module as documented there, or on the reader module that imported it): whatever that switch does, the process-wide
+    # setting is what it was before each load - complete, truncated, by path
+    import rv.readers.reader as _reader_mod
+    for where, holder in (("errors", errors), ("reader", _reader_mod)):
+        old_switch = getattr(holder, "RAISE_RANGE_ERRORS_ON_READ", None)
+        if old_switch is None:
+            continue
+        holder.RAISE_RANGE_ERRORS_ON_READ = True
+        try:
+            for flag in (False, True):
+                attempt("strict-reads-requested:" + where, None, "bytesio", lambda: faults.FaultyBytesIO(data), flag)
+                attempt("strict-reads-requested:" + where + ":truncated", None, "bytesio", lambda: faults.FaultyBytesIO(data[:max(8, len(data) // 2)]), flag)
+                attempt("strict-reads-requested:" + where, None, "path", lambda: Path(path), flag)
+                res.count("loads_with_strict_reads_requested", 3)
+        finally:
+            holder.RAISE_RANGE_ERRORS_ON_READ = old_switch
     # ---------------- loads made while the CALLER holds the setting through the library's own context manager: inside the
     # block the setting is the block's value before and after every load, and the caller's value is back after the block
     from rv.errors import override_raise_controller_value_errors as _override
